@@ -42,6 +42,26 @@ Theorem C06_layout_flat : forall (B : Type) (dcount : list B -> nat) (t : item) 
 Proof. exact (@layout_flat). Qed.
 Print Assumptions C06_layout_flat.
 
+(* (1b) Inside occurrence i < e(counter) of a table: an elementary table's occurrence holds its element at
+   start + i * width; a group table's occurrence holds every member at start + i * (length of one occurrence) + the
+   member's specification offset inside the group. *)
+Theorem C06_layout_flat_occurrence : forall (B : Type) (dcount : list B -> nat) (t : item) (e : env) (r : list B),
+  flat_odo t = true -> counters_hold dcount e t r ->
+  exists v, nav_of dcount r (build t) = Ok v
+    /\ forall k x, find_kid (item_kids t) k = Some x -> is_table x = true ->
+       exists o vk, kid_start e (item_kids t) k = Some o /\ nav_name v (KName k) = Ok vk
+         /\ forall i, i < count e (item_oc x) ->
+            exists vi, nav_index dcount r vk i = Ok vi
+              /\ match x with
+                 | Elem n sz _ _ => exists vj, nav_name vi (KName n) = Ok vj /\ n_loc vj = LAtom (o + i * sz) sz
+                 | Group _ _ _ gks =>
+                     forall j y, find_kid gks j = Some y ->
+                       exists oj vj, kid_start e gks j = Some oj /\ nav_name vi (KName j) = Ok vj
+                         /\ n_loc vj = LAtom (o + i * ext1 e x + oj) (extent e y)
+                 end.
+Proof. exact (@layout_flat_occurrence). Qed.
+Print Assumptions C06_layout_flat_occurrence.
+
 (* Frame: the walk reads the record only at its counter fields, which lie inside the record; whatever follows the
    record in the reader's buffer does not change the navigator. *)
 Theorem C06_frame : forall (B : Type) (dcount : list B -> nat) (t : item) (e : env) (r more : list B),
